@@ -79,6 +79,30 @@ Definition adjoint2 (outs : list (list (Z * Q) * list (Z * Q) * Q)) (iy ix : Z) 
 Definition adjoint3 (outs : list (list (Z * Q) * list (Z * Q) * list (Z * Q) * Q)) (iz iy ix : Z) : Q :=
   qsum (map (fun o => match o with (tz, ty, tx, y) => tap_at tz iz * tap_at ty iy * tap_at tx ix * y end) outs).
 
+(* ---- bicubic (2-D only in aten): cubic convolution with A = -3/4 (get_cubic_upsample_coefficients).  The coordinate is
+   unnormalised but NOT clipped; the four neighbours floor-1 .. floor+2 are fetched with get_value_bounded: zeros padding drops
+   out-of-range neighbours, border padding clips the neighbour INDEX to [0, n-1].  The backward kernel adds w * y to the same
+   (bounded) neighbours. ---- *)
+Definition cubicA : Q := -3 # 4.
+Definition cc1 (x : Q) : Q := ((cubicA + 2) * x - (cubicA + 3)) * x * x + 1.                       (* cubic_convolution1 *)
+Definition cc2 (x : Q) : Q := ((cubicA * x - 5 * cubicA) * x + 8 * cubicA) * x - 4 * cubicA.      (* cubic_convolution2 *)
+
+Definition bicubic_taps1 (ix : Q) : list (Z * Q) :=
+  let i0 := Qfloor ix in let t := ix - inject_Z i0 in
+  [((i0 - 1)%Z, cc2 (t + 1)); (i0, cc1 t); ((i0 + 1)%Z, cc1 (1 - t)); ((i0 + 2)%Z, cc2 (2 - t))].
+
+Definition clampZ (n i : Z) : Z := Z.min (n - 1) (Z.max i 0).
+
+Definition axis_taps_bicubic (p : padding) (ac : bool) (n : Z) (x : Q) : list (Z * Q) :=
+  let taps := bicubic_taps1 (unnormalize ac n x) in
+  match p with
+  | PZeros => filter (fun t => inb n (fst t)) taps
+  | PBorder => map (fun t => (clampZ n (fst t), snd t)) taps
+  end.
+
+Definition grid_sample2_bicubic (p : padding) (ac : bool) (H W : Z) (im : Z -> Z -> Q) (gx gy : Q) : Q :=
+  sample2 im (axis_taps_bicubic p ac H gy) (axis_taps_bicubic p ac W gx).
+
 (* ---- flat tensors for execution ---- *)
 Definition qnth (l : list Q) (i : Z) : Q := if (i <? 0)%Z then 0 else nth (Z.to_nat i) l 0.
 Definition im2_of (H W : Z) (d : list Q) : Z -> Z -> Q := fun i j => qnth d (i * W + j)%Z.
@@ -99,6 +123,14 @@ Definition adj3 m p ac (D H W : Z) (y : list Q) (grid : list (Q * Q * Q)) : list
   let outs := map (fun gy => match gy with ((gx, gyy, gz), v) =>
                     (axis_taps m p ac D gz, axis_taps m p ac H gyy, axis_taps m p ac W gx, v) end) (combine grid y) in
   flat_map (fun k => flat_map (fun i => map (fun j => Qred (adjoint3 outs k i j)) (zrange W)) (zrange H)) (zrange D).
+
+Definition fwd2_bicubic p ac (H W : Z) (d : list Q) (grid : list (Q * Q)) : list Q :=
+  map (fun g => Qred (grid_sample2_bicubic p ac H W (im2_of H W d) (fst g) (snd g))) grid.
+
+Definition adj2_bicubic p ac (H W : Z) (y : list Q) (grid : list (Q * Q)) : list Q :=
+  let outs := map (fun gy => match gy with ((gx, gyy), v) => (axis_taps_bicubic p ac H gyy, axis_taps_bicubic p ac W gx, v) end)
+                  (combine grid y) in
+  flat_map (fun i => map (fun j => Qred (adjoint2 outs i j)) (zrange W)) (zrange H).
 
 (* ---- the reshape wrapper (as repaired): x has shape ( *xbatch, *channels, spatial), the grid ( *gbatch, out, dim);
    xbatch and gbatch (same length) broadcast to the batch shape; every channel of a batch element is sampled with the
